@@ -4481,9 +4481,11 @@ Proof.
 Qed.
 
 (** the C12 oracle on model traces: two representative histories (refusals, removal, revert, mark
-    removed, process death, reopen).  The general statement (for every history with [ok_hist] and a
-    universe covering its names the oracle is true on [trace_ops]) is NOT proved; the checks evaluate
-    the oracle on the model's own trace of every executed history instead ([model_oracle]). *)
+    removed, process death, reopen).  In general: the structural clause [wf_obs] is proved for every
+    observation of every model trace in Meta/Oracle.v ([wf_obs_history]); the two relational clauses
+    are proved at the level of views ([refused_unchanged], [reopen_roundtrip]) but not in the
+    oracle's boolean form (which also compares the per-image data-write count); the checks evaluate
+    the whole oracle on the model's own trace of every executed history ([model_oracle]). *)
 Example c12_oracle_model_ex1 :
   let u := [Head 0; Head 1; Head 2; Head 3; Head 4; Head 5; Snap 0; Snap 1; Snap 2; Snap 3; Snap 9; Odd 2] in
   let os := [OCreate 16384 7; OOpen; OSetMode (Some RW); OWrite; OSnap 1 true 1; OWrite; OSnap 2 false 2; OSnap 3 false 3;
